@@ -83,6 +83,17 @@ Fixpoint under_lock_scope (inside : bool) (l : lockid) (f : fieldid) (s : scope)
       (fix go (q : list scope) : bool := match q with [] => true | k :: q' => under_lock_scope ins l f k && go q' end) ks
   end.
 
+(* every node that touches member f holds lock l (in some mode) *)
+Definition holds_lock (l : lockid) (h : list lock) : bool := existsb (fun x : lock => N.eqb (fst x) l) h.
+Definition field_guarded (tbl : table) (f : fieldid) (l : lockid) : bool :=
+  forallb (fun n : node => negb (existsb (fun a : access => N.eqb (fst a) f) (snd n)) || holds_lock l (fst n)) (all_nodes tbl).
+(* every node that writes member f holds lock l exclusively *)
+Definition holds_excl (l : lockid) (h : list lock) : bool :=
+  existsb (fun x : lock => N.eqb (fst x) l && match snd x with Excl => true | Shared => false end) h.
+Definition writes_guarded_excl (tbl : table) (f : fieldid) (l : lockid) : bool :=
+  forallb (fun n : node => negb (existsb (fun a : access => N.eqb (fst a) f && match snd a with Wr => true | Rd => false end) (snd n))
+                           || holds_excl l (fst n)) (all_nodes tbl).
+
 (* ---- semantics: threads running methods of the table ---- *)
 
 Record frame := mkF { fheld : list lock; faccs : list access; frest : list scope }.
@@ -232,96 +243,4 @@ Section Lin.
           before h (Res id1 r1) (Inv id2 t2 o2) -> before l (id1, o1, r1) (id2, o2, r2)).
 End Lin.
 
-(* ------------------------------------------------------------------------------------------------
-   sequential reference semantics of the cache (what one call does), used as `eff` above by the history
-   checker and compared single-threaded with the real mem_cache.  Keys, values, triggers are byte strings. *)
-Definition str := list N.
-Fixpoint str_eqb (a b : str) : bool :=
-  match a, b with
-  | [], [] => true
-  | x :: a', y :: b' => N.eqb x y && str_eqb a' b'
-  | _, _ => false
-  end.
-Fixpoint str_ltb (a b : str) : bool :=
-  match a, b with
-  | [], [] => false
-  | [], _ :: _ => true
-  | _ :: _, [] => false
-  | x :: a', y :: b' => N.ltb x y || (N.eqb x y && str_ltb a' b')
-  end.
-Fixpoint set_insert (x : str) (l : list str) : list str :=     (* sorted, duplicate-free *)
-  match l with
-  | [] => [x]
-  | y :: l' => if str_eqb x y then l else if str_ltb x y then x :: l else y :: set_insert x l'
-  end.
-Definition set_of (l : list str) : list str := fold_right set_insert [] l.
-
-Record entry := mkE { e_key : str; e_val : str; e_trig : list str (* sorted set, includes the key *);
-                      e_timeout : N; e_gen : N; e_seq : N (* insertion stamp: order among equal timeouts *) }.
-Record cache := mkC { c_lru : list entry (* most recently used first *); c_limit : N; c_gen : N; c_seq : N }.
-Definition cache_init (limit : N) : cache := mkC [] limit 0 0.
-
-Inductive cop :=
-| OFetch (key : str) (now : N)
-| OStore (key val : str) (trig : list str) (timeout : N) (gen : option N) (now : N)
-| ORise (trig : str)
-| ORemove (key : str)
-| OClear
-| OStats.
-Inductive cret :=
-| RMiss
-| RHit (val : str) (trig : list str) (timeout gen : N)
-| RUnit
-| RStats (keys triggers : N).
-
-Fixpoint find_key (k : str) (l : list entry) : option entry :=
-  match l with [] => None | e :: l' => if str_eqb k (e_key e) then Some e else find_key k l' end.
-Definition del_key (k : str) (l : list entry) : list entry := filter (fun e => negb (str_eqb k (e_key e))) l.
-Definition has_trig (t : str) (e : entry) : bool := existsb (str_eqb t) (e_trig e).
-
-(* entry with the least (timeout, insertion stamp) *)
-Fixpoint min_timeout (l : list entry) : option entry :=
-  match l with
-  | [] => None
-  | e :: l' => match min_timeout l' with
-               | None => Some e
-               | Some m => if N.ltb (e_timeout e) (e_timeout m) || (N.eqb (e_timeout e) (e_timeout m) && N.ltb (e_seq e) (e_seq m))
-                           then Some e else Some m
-               end
-  end.
-(* check_limits: while size >= limit > 0 drop the earliest-expiring entry if it has expired, else the least
-   recently used one *)
-Fixpoint check_limits (fuel : nat) (limit now : N) (l : list entry) : list entry :=
-  match fuel with
-  | O => l
-  | S fuel' =>
-      if N.ltb 0 (N.of_nat (List.length l)) && N.ltb 0 limit && N.leb limit (N.of_nat (List.length l)) then
-        match min_timeout l with
-        | Some m => if N.ltb (e_timeout m) now then check_limits fuel' limit now (del_key (e_key m) l)
-                    else check_limits fuel' limit now (removelast l)
-        | None => l
-        end
-      else l
-  end.
-
-Definition cache_step (c : cache) (o : cop) : cache * cret :=
-  match o with
-  | OFetch k now =>
-      match find_key k (c_lru c) with
-      | Some e => if N.ltb (e_timeout e) now then (c, RMiss)
-                  else (mkC (e :: del_key k (c_lru c)) (c_limit c) (c_gen c) (c_seq c),
-                        RHit (e_val e) (e_trig e) (e_timeout e) (e_gen e))
-      | None => (c, RMiss)
-      end
-  | OStore k v tr tmo gen now =>
-      let l1 := del_key k (c_lru c) in
-      let l2 := check_limits (S (List.length l1)) (c_limit c) now l1 in
-      let g := match gen with Some g => g | None => c_gen c end in
-      let cg := match gen with Some _ => c_gen c | None => N.succ (c_gen c) end in
-      (mkC (mkE k v (set_of (k :: tr)) tmo g (c_seq c) :: l2) (c_limit c) cg (N.succ (c_seq c)), RUnit)
-  | ORise t => (mkC (filter (fun e => negb (has_trig t e)) (c_lru c)) (c_limit c) (c_gen c) (c_seq c), RUnit)
-  | ORemove k => (mkC (del_key k (c_lru c)) (c_limit c) (c_gen c) (c_seq c), RUnit)
-  | OClear => (mkC [] (c_limit c) (c_gen c) (c_seq c), RUnit)
-  | OStats => (c, RStats (N.of_nat (List.length (c_lru c)))
-                         (fold_right (fun e a => N.add (N.of_nat (List.length (e_trig e))) a) 0%N (c_lru c)))
-  end.
+(* The sequential object used as `eff` (what one call does) is C07's model of mem_cache: see C09/Seq.v. *)
